@@ -32,7 +32,7 @@ THEOREMS = [
     "C18_contained_pfx_validate", "C18_contained_spki_add", "C18_contained_spki_other", "C18_contained_spki_lookup",
     "C18_contained_step", "C18_histories", "C18_balanced", "C18_sync_prepare_contained",
     "C18_full_repaired", "C18_full_of_fixes", "C18_refuted_shrink", "C18_refuted_grow", "C18_refuted_init", "C18_refuted_free",
-    "C18_refuted_reason", "C18_refuted_lookup", "C18_refuted_children", "C18_as_is_part", "C18_code_constants",
+    "C18_refuted_reason", "C18_refuted_lookup", "C18_refuted_as_is", "C18_refuted_children", "C18_as_is_part", "C18_code_constants",
 ]
 INC = ("rtrlib/spki/hashtable/ht-spkitable.c",)
 WRAPS = ("free", "malloc", "calloc", "realloc", "strdup")
